@@ -5,7 +5,7 @@ import wire
 from wire import mk_fmt, cells
 from props.common import guarded, canon_cells_list, reply_fmt_list
 from props.widthenv import (env_fields, text_of, realize, shared_variants, shared_case_fields, pool_size, pool_object,
-                            safe_oracle, safe_impl, limit_memory, BIG, HUGE)
+                            safe_oracle, safe_impl, limit_memory, BIG, HUGE, budgeted, DidNotReturn, over_budget)
 from curtsies.formatstring import linesplit
 
 PROP = "C16"
@@ -130,10 +130,15 @@ def line(c):
     return "linesplit %s %s %d" % (env_fields(text_of(c["f"])), wire.enc_chunks(c["f"]), c["columns"])
 
 
-def run_impl(c):
+def _call(c):
     if c["op"] == "linesplit_str":
         return linesplit(text_of(c["f"]), c["columns"])
     return linesplit(realize(c), c["columns"])
+
+
+def run_impl(c):
+    """the real call, with a time budget: the property says linesplit RETURNS lines"""
+    return budgeted(lambda: _call(c), sum(len(t) for t, _ in c["f"]), inside=c["columns"] >= 1)
 
 
 def _impl(c):
@@ -201,6 +206,8 @@ def _oracle(c):
     columns = c["columns"]
     try:
         lines = run_impl(c)
+    except DidNotReturn as e:
+        return "linesplit did not return within %s s (the unchanged code needs milliseconds)" % e.seconds
     except Exception as e:  # noqa: BLE001
         return "raised %s" % type(e).__name__
     if c["op"] == "linesplit_str":
@@ -296,12 +303,24 @@ def check(ctx):
     cases = [c for s in strings for c in cases_for_string(s)]
     ctx.exhaustive.append("C16: %d strings (len<=%d over a,b,space,TAB,LF) x 4 layouts x columns 1..4: %d cases"
                           % (len(strings), maxlen, len(cases)))
+    shards = [strings[i:i + (500 if ctx.thorough else 250)] for i in range(0, len(strings), 500 if ctx.thorough else 250)]
+    res, done = [], 0
     if ctx.thorough:
-        shards = [strings[i:i + 500] for i in range(0, len(strings), 500)]
         with multiprocessing.Pool(min(16, multiprocessing.cpu_count())) as pool:
-            res = [x for part in pool.map(_work, shards) for x in part]
+            for part in pool.imap(_work, shards):
+                res += part
+                done += 1
+                if over_budget(ctx):
+                    pool.terminate()
+                    break
     else:
-        res = _work(strings)
+        for shard in shards:
+            if over_budget(ctx):
+                break
+            res += _work(shard)
+            done += 1
+    if done < len(shards):
+        cases = [c for sh in shards[:done] for s_ in sh for c in cases_for_string(s_)]
     pre = {id(c): r[0] for c, r in zip(cases, res)}
     tie_lines(ctx, "C16/linesplit", cases, [r[2] for r in res], lambda c: pre[id(c)])
     for c, (_, w, _m) in zip(cases, res):
@@ -317,6 +336,8 @@ def check(ctx):
     ctx.tie("C16/outside-quantifier", [c for c in extra if c["columns"] < 1], line, impl, canon_cells_list, canon_cells_list,
             level="representation")
     for c in extra:
+        if over_budget(ctx):
+            break
         w = oracle(c)
         ctx.count(c, nontrivial=nontrivial(c), tag="extra-" + c["op"])
         if w:
